@@ -213,6 +213,17 @@ func RouteSpecs(thorough bool) []*spec.Spec {
 				spec.Svc("ProjectService", "/project", spec.RPC("Build", "ProjectRef", "Out", "POST", "/{project}/builds"))}}
 		out = append(out, withCell(spec.One("route_literal_like_variable", f), "route/unit=literal_named_like_variable", "extended", "valid", "route"))
 	}
+	{
+		// M: one request message shared by several RPCs of a service whose templates use DIFFERENT sets of its fields as path
+		// variables (and none): what is derived per operation from the template must not be remembered per message
+		f := &spec.File{Messages: out1(spec.M("ItemRef", spec.F("id", "string"), spec.F("shop_id", "string"), spec.F("name", "string"))),
+			Services: []*spec.Service{spec.Svc("CatalogService", "/api/v1",
+				spec.RPC("RenameItem", "ItemRef", "Out", "PUT", "/items/{id}"),
+				spec.RPC("RenameShopItem", "ItemRef", "Out", "PUT", "/shops/{shop_id}/items/{id}"),
+				spec.RPC("TouchItem", "ItemRef", "Out", "POST", "/touch"),
+				spec.RPC("PatchShop", "ItemRef", "Out", "PATCH", "/shops/{shop_id}"))}}
+		out = append(out, withCell(spec.One("route_shared_request", f), "route/unit=shared_request_message", "extended", "valid", "route"))
+	}
 	return out
 }
 
